@@ -319,7 +319,7 @@ Definition lc_same_live (s t : Lifecycle_state) : Prop :=
   lc_active s = lc_active t /\ lc_api s = lc_api t /\ lc_shutdown s = lc_shutdown t /\
   lc_cancelled s = lc_cancelled t /\ lc_stopping s = lc_stopping t /\ lc_sup s = lc_sup t /\
   lc_st s = lc_st t /\ lc_latch s = lc_latch t /\ lc_spc s = lc_spc t /\ lc_pdisc s = lc_pdisc t /\
-  lc_pt7 s = lc_pt7 t /\ lc_pups s = lc_pups t /\ lc_pclose s = lc_pclose t /\ lc_stopreq s = lc_stopreq t /\
+  lc_pt7 s = lc_pt7 t /\ lc_pups s = lc_pups t /\ lc_pbehind s = lc_pbehind t /\ lc_pclose s = lc_pclose t /\ lc_stopreq s = lc_stopreq t /\
   lc_gnotif s = lc_gnotif t /\ lc_hascur s = lc_hascur t /\ lc_etd s = lc_etd t /\ lc_edone s = lc_edone t /\
   lc_esock s = lc_esock t /\ lc_elis s = lc_elis t /\ lc_eup s = lc_eup t /\ lc_estop1 s = lc_estop1 t /\
   lc_estop2 s = lc_estop2 t /\ lc_ahold s = lc_ahold t /\ lc_gsender s = lc_gsender t /\ lc_grecv s = lc_grecv t /\
@@ -330,9 +330,9 @@ Definition lc_same_live (s t : Lifecycle_state) : Prop :=
 
 (** the computation, on an explicit closed and clean state (everything not fixed by
     [Lifecycle_close_clean_state] is a variable) *)
-Lemma lc_reopen_explicit : forall m active oeid rgen cancelled stopping st latch reid pdisc pt7 pups pclose stopreq
+Lemma lc_reopen_explicit : forall m active oeid rgen cancelled stopping st latch reid pdisc pt7 pups pbehind pclose stopreq
     eid etd eup estop1 estop2 lgen lcount lpc lprev lown reconnects redials ndials npub,
-  let s := LcState active LcIdle oeid true rgen cancelled stopping LcSupStopped st latch LcSupIdle reid pdisc pt7 pups
+  let s := LcState active LcIdle oeid true rgen cancelled stopping LcSupStopped st latch LcSupIdle reid pdisc pt7 pups pbehind
              pclose stopreq false true eid etd true false false eup estop1 estop2 false false false false false 0 0 false
              false lgen lcount lpc lprev lown 0 0 false reconnects redials ndials npub in
   exists s1 s0,
@@ -358,9 +358,9 @@ Proof.
   intros s m Hi Hc.
   destruct (Lifecycle_close_clean_state s Hi Hc) as (G & K & L & N & St & D).
   destruct Hc as [Ha Hs].
-  assert (E : exists oeid rgen cancelled stopping st latch reid pdisc pt7 pups pclose stopreq
+  assert (E : exists oeid rgen cancelled stopping st latch reid pdisc pt7 pups pbehind pclose stopreq
     eid etd eup estop1 estop2 lgen lcount lpc lprev lown reconnects redials ndials npub,
-    s = LcState (lc_active s) LcIdle oeid true rgen cancelled stopping LcSupStopped st latch LcSupIdle reid pdisc pt7 pups
+    s = LcState (lc_active s) LcIdle oeid true rgen cancelled stopping LcSupStopped st latch LcSupIdle reid pdisc pt7 pups pbehind
              pclose stopreq false true eid etd true false false eup estop1 estop2 false false false false false 0 0 false
              false lgen lcount lpc lprev lown 0 0 false reconnects redials ndials npub).
   { clear G K.
@@ -378,8 +378,8 @@ Proof.
            end.
     subst.
     destruct sup; try discriminate St. destruct spc; try discriminate.
-    cbn. do 26 eexists. reflexivity. }
-  destruct E as (oeid & rgen & cancelled & stopping & st & latch & reid & pdisc & pt7 & pups & pclose & stopreq &
+    cbn. do 27 eexists. reflexivity. }
+  destruct E as (oeid & rgen & cancelled & stopping & st & latch & reid & pdisc & pt7 & pups & pbehind & pclose & stopreq &
     eid & etd & eup & estop1 & estop2 & lgen & lcount & lpc & lprev & lown & reconnects & redials & ndials & npub & E).
   rewrite E. cbn [lc_active].
   apply lc_reopen_explicit.
